@@ -469,7 +469,25 @@ class Interp:
                 raise Unsupported("del target")
 
     def st_If(self, node, fr):
-        if truthy(self.ctx, self.eval(node.test, fr)):
+        t = self.eval(node.test, fr)
+        if is_z3(t) and not node.orelse and len(node.body) == 1 and isinstance(node.body[0], ast.Assign) \
+                and len(node.body[0].targets) == 1 and isinstance(node.body[0].targets[0], (ast.Name, ast.Attribute)) \
+                and self.is_pure_expr(node.body[0].value):
+            # `if c: x = e` with a pure right-hand side: merge as x = ite(c, e, x) instead of forking
+            tgt = node.body[0].targets[0]
+            c = simp(t if is_symbool(t) else (t != 0))
+            if is_z3(c):
+                try:
+                    oldv = self.eval(ast.Name(id=tgt.id, ctx=ast.Load()), fr) if isinstance(tgt, ast.Name) else \
+                        self.getattr_(self.eval(tgt.value, fr), tgt.attr)
+                    newv = self.eval(node.body[0].value, fr)
+                    m = self.merge_values(c, newv, oldv)
+                except Raised:
+                    m = None
+                if m is not None:
+                    self.assign(tgt, m, fr)
+                    return
+        if truthy(self.ctx, t):
             self.exec_block(node.body, fr)
         else:
             self.exec_block(node.orelse, fr)
@@ -896,7 +914,7 @@ class Interp:
             return MethodRef(o, name)
         if isinstance(o, self.models.Handle):
             return self.models.handle_attr(self, o, name)
-        if isinstance(o, (self.models.SymRegex, self.models.LazySeq)):
+        if isinstance(o, (self.models.SymRegex, self.models.LazySeq, self.models.ArgParserStub)):
             return MethodRef(o, name)
         if o is None:
             raise_py(AttributeError, "'NoneType' object has no attribute '%s'" % name)
@@ -1090,7 +1108,7 @@ class Interp:
         return out
 
     def ex_Dict(self, node, fr):
-        d = {}
+        d = self.models.HDict() if not node.keys else {}
         for k, v in zip(node.keys, node.values):
             if k is None:
                 d.update(self.eval(v, fr))
